@@ -320,7 +320,7 @@ func (c *c16) DumpCase(seed uint64, idx int) []Case {
 		if r.chance(20) {
 			n = 12 + r.n(20)
 		}
-		kinds := []string{"ToJson", "ToJsonIndent", "Title", "Collections", "ToJson"}
+		kinds := []string{"ToJson", "ToJsonIndent", "Title", "Collections", "ToJson", "Objects"}
 		for i := 0; i < n; i++ {
 			ex.Readers = append(ex.Readers, kinds[r.n(len(kinds))])
 		}
@@ -624,6 +624,8 @@ func (c *c16) checkW2(cs *Case, ex *c16extra, record bool) *Case {
 				return cat.Info.Title
 			}
 			return ""
+		case "Objects":
+			return readObjects(cat)
 		default:
 			return readCollections(cat)
 		}
@@ -709,6 +711,44 @@ func readCollections(cat *catalog.Catalog) string {
 	if it, ok := cat.UserTypes.Find(func(k string, v *catalog.UserType) bool { return v.Annotation != "" }); ok {
 		sb.WriteString("first-annotated=" + it.Key + ";")
 	}
+	return sb.String()
+}
+
+// readObjects serialises the objects reachable from a catalog one by one (a caller that renders
+// a page per interaction or per type): their own MarshalJSON/String/MarshalText methods run, not
+// the catalog's.
+func readObjects(cat *catalog.Catalog) string {
+	var sb strings.Builder
+	put := func(v any) {
+		b, err := json.Marshal(v)
+		sb.Write(b)
+		sb.WriteString(errStr(err) + ";")
+	}
+	put(cat.Info)
+	_ = cat.Interactions.Each(func(k catalog.InteractionID, v catalog.Interaction) error {
+		sb.WriteString(k.String() + "|")
+		if t, err := k.MarshalText(); err == nil {
+			sb.Write(t)
+		}
+		put(v)
+		return nil
+	})
+	cat.UserTypes.EachSafe(func(k string, v *catalog.UserType) {
+		put(v)
+		put(v.Schema)
+	})
+	_ = cat.UserEnums.Each(func(k string, v *catalog.UserRule) error {
+		put(v)
+		return nil
+	})
+	_ = cat.Tags.Each(func(k catalog.TagName, v *catalog.Tag) error {
+		put(v)
+		return nil
+	})
+	_ = cat.Servers.Each(func(k string, v *catalog.Server) error {
+		put(v)
+		return nil
+	})
 	return sb.String()
 }
 
